@@ -308,11 +308,16 @@ class DBStorage(BaseStorage):
                 # delete the referenced events
                 for tag in event.tags:
                     name = tag[0]
-                    if name == "e":
+                    if name == "e" and len(tag) > 1:
                         event_id = tag[1]
+                        try:
+                            referenced = bytes.fromhex(event_id)
+                        except (ValueError, TypeError):
+                            # not an event id: nothing to delete for this tag
+                            continue
                         query = sa.delete(self.EventTable).where(
                             (self.EventTable.c.pubkey == bytes.fromhex(event.pubkey))
-                            & (self.EventTable.c.id == bytes.fromhex(event_id))
+                            & (self.EventTable.c.id == referenced)
                         )
                         await conn.execute(query)
                         self.log.info("Deleted event %s", event_id)
